@@ -189,19 +189,28 @@ def contender(F, path, logp, cid, stop_r):
         return pid
     try:
         log = os.open(logp, os.O_WRONLY | os.O_APPEND)
+        if cid % 2 == 1:
+            # a daemon-style survivor: standard input closed, so descriptor 0 is free and the lock file may get it
+            try:
+                os.close(0)
+            except OSError:
+                pass
         lock = F.FileLock(path)
         h = cid * 1000000
-        while True:
-            rl, _, _ = select.select([stop_r], [], [], 0)
-            if rl:
-                break
-            got = lock.acquire() if cid % 2 == 0 else lock.acquire(timeout=1.0, poll_interval=0.002)
-            if got:
-                h += 1
-                os.write(log, ('E %d %d\n' % (cid, h)).encode())
-                os.write(log, ('X %d %d\n' % (cid, h)).encode())
-                lock.release()
-            time.sleep(0.001)
+        try:
+            while True:
+                rl, _, _ = select.select([stop_r], [], [], 0)
+                if rl:
+                    break
+                got = lock.acquire() if cid % 2 == 0 else lock.acquire(timeout=1.0, poll_interval=0.002)
+                if got:
+                    h += 1
+                    os.write(log, ('E %d %d\n' % (cid, h)).encode())
+                    os.write(log, ('X %d %d\n' % (cid, h)).encode())
+                    lock.release()
+                time.sleep(0.001)
+        except BaseException as e:    # a survivor for whom acquire() / release() raises cannot use the lock any more
+            os.write(log, ('R %d %d\n' % (cid, 0)).encode())
     finally:
         os._exit(0)
 
@@ -254,7 +263,10 @@ def one_case(args):
         for line in open(logp):
             k, cid, h = line.split()
             n += 1
-            ev.append({'n': n, 't': 0, 'e': 'Enter' if k == 'E' else 'Exit', 'h': int(h)})
+            if k == 'R':
+                ev.append({'n': n, 't': 0, 'e': 'Probe', 'ok': False, 'ms': 0, 'who': 'contender-raised'})
+            else:
+                ev.append({'n': n, 't': 0, 'e': 'Enter' if k == 'E' else 'Exit', 'h': int(h)})
         ev.append({'n': n + 1, 't': 0, 'e': 'End', 'status': 'ok', 'lines': info.get('lines', 0)})
         return ev
     finally:
